@@ -3,8 +3,8 @@ from ..core import Script, Rng
 from ..stage import LineStage, replay_line
 from .common import *
 
-ARTEFACTS = ["G1-consts", "G2-rs-portable", "G2-ref-compress", "G15-rs-sse41", "G24-portable-many", "G16-rs-avx2", "G17-rs-sse2", "G21-c-avx512", "G21-c-avx512-prog"]
-EXTRA_PROPS = [("B3.Simd.Sse41Props", "B3/Simd/Sse41Props.lean"), ("B3.Simd.Sse41PropsMany", "B3/Simd/Sse41PropsMany.lean"), ("B3.Props.C05P", "B3/Props/C05P.lean"), ("B3.Simd.Avx2Props", "B3/Simd/Avx2Props.lean"), ("B3.Simd.Sse2Props", "B3/Simd/Sse2Props.lean"), ("B3.Simd.CAvx512Props", "B3/Simd/CAvx512Props.lean")]
+ARTEFACTS = ["G1-consts", "G2-rs-portable", "G2-ref-compress", "G15-rs-sse41", "G24-portable-many", "G16-rs-avx2", "G17-rs-sse2", "G21-c-avx512", "G21-c-avx512-prog", "G18-c-sse41", "G19-c-sse2", "G20-c-avx2"]
+EXTRA_PROPS = [("B3.Simd.Sse41Props", "B3/Simd/Sse41Props.lean"), ("B3.Simd.Sse41PropsMany", "B3/Simd/Sse41PropsMany.lean"), ("B3.Props.C05P", "B3/Props/C05P.lean"), ("B3.Simd.Avx2Props", "B3/Simd/Avx2Props.lean"), ("B3.Simd.Sse2Props", "B3/Simd/Sse2Props.lean"), ("B3.Simd.CAvx512Props", "B3/Simd/CAvx512Props.lean"), ("B3.Simd.CSse41Props", "B3/Simd/CSse41Props.lean"), ("B3.Simd.CSse2Props", "B3/Simd/CSse2Props.lean"), ("B3.Simd.CAvx2Props", "B3/Simd/CAvx2Props.lean")]
 RULE = ("kernel calls, compared with the model's kernels (generated from src/portable.rs, proved = Spec.compress): single-block "
         "kernels on the grid block_len 0..64 x flag byte classes with random cv/block and counters from {0,1,2^32-1,2^32,2^32+1,2^63,"
         "2^64-1,random}; hash_many with num_inputs 0..2*degree+3, blocks in {1,16}, counters 2^32-k (k<=17) and near 2^64 so every "
@@ -216,6 +216,33 @@ class SimdModelStage2:
                 m = rng.randrange(1, 41)
                 c2 = min(rng.choice([(1 << 32) - rng.randrange(0, m + 1), (1 << 31) - rng.randrange(0, m + 1), rng.randrange(1 << 62), M64 - m]), M64 - m)
                 lines.append(f"CK xofmany avx512_c {rhex(rng, 32)} {rhex(rng, 64)} {rng.randrange(0, 65)} {c2} {rng.randrange(256)} {m}")
+            # the other C intrinsics files (sse41_c, sse2_c, avx2_c): generated code through RunSimdC
+            lines2 = []
+            for i in range(self.n):
+                sym = rng.choice(["sse41_c", "sse2_c"])
+                k = rng.choice(["cip", "cxof"])
+                lines2.append(f"CK {k} {sym} {rhex(rng, 32)} {rhex(rng, 64)} {rng.randrange(0, 65)} {counters(rng)} {rng.randrange(256)}")
+            for i in range(max(8, self.n // 5)):
+                sym = rng.choice(["sse41_c", "sse2_c", "avx2_c"])
+                n = rng.choice([1, 3, 4, 5, 7, 8, 9, 12, 17])
+                ctr = min(rng.choice([0, (1 << 32) - rng.randrange(0, 18), (1 << 31) - rng.randrange(0, 18), rng.randrange(1 << 62)]), M64 - n)
+                lines2.append(f"CK hmany {sym} {n} {rng.choice([1, 1, 16])} {rng.randrange(1 << 30)} {rhex(rng, 32)} {ctr} {rng.randrange(2)} "
+                              f"{rng.randrange(256)} {rng.randrange(256)} {rng.randrange(256)} 0 0")
+            rc2, out2, _ = core.run_driver(cexe, lines2)
+            mo2, err2 = lean_run("RunSimdC.lean", lines2, "B3.Simd.RunC")
+            if mo2 is None:
+                mism.append(dict(kind="driver-crash", impl_name="c", ops=[], note="B3.Simd.RunC does not build", log_tail=err2))
+            else:
+                for i, a in enumerate(lines2):
+                    x = out2[i] if i < len(out2) else "<missing>"
+                    y = mo2[i] if i < len(mo2) else "<missing>"
+                    if x == "unsupported":
+                        continue
+                    evals += 1
+                    if x != y and len(mism) < 12:
+                        mism.append(dict(kind="impl-vs-model", impl_name="c", ops=[a], impl_differs=True, impl_output=x[:300], model_output=y[:300],
+                                         note="generated C intrinsics code (lane model) differs from the compiled kernel"))
+                distinct |= set(lines2)
             rc, out, _ = core.run_driver(cexe, lines)
             mo, err = lean_run("RunSimdC512.lean", lines, "B3.Simd.RunC512")
             if mo is None:
